@@ -14,13 +14,13 @@ CHECKS = {
             "Calibration problems inside the C18 box (COS accuracy).", "3/C20"),
     "C19": ("recorded per-state rates of real chains on CTMCCredit grids vs closed forms; harness-side Levy-copula mass of the default region from a different decomposition (inclusion-exclusion of half-spaces, corner sums on quadrature tail integrals); quadrature of the CDS payoff against the default-time law",
             "Held-on-observed: 1-d default rate = closed form of the truncated model = quadrature; n-d default rate = region mass in the box, closed form within the mass outside the box; theta = inclusion-exclusion, monotone; survival / spread relations; inverses; E[CDS payoff].",
-            "Finite-variation margins; copula callable trusted (C11).", "3/C19"),
+            "Infinite-variation margins in dimension 2 only; copula callable trusted (C11).", "3/C19"),
     "C16": ("record-only capture of the driver path consumed by the real single and coupled SDE schemes; independent numpy Euler recursion and closed forms (constant, diagonal) as oracle; df monitors on fine meshes around every tenor",
             "Held-on-observed: scheme = Euler recursion for Constant / DiagX / Libor / ForwardMarket coefficients with 1-d and copula drivers, both components of the coupled pair at levels 1..2, epsilon = h^BG, coarse driver drift of the level below; df(0)=1, positive, non-increasing, continuous.",
-            "Libor model with a copula driver not run (nested quadrature).", "3/C16"),
+            "Copula drivers in dimension 2; the Libor model with independent components is refused by the library (NotImplementedError).", "3/C16"),
     "C15": ("record-only taps on the variate sources (scripted jump counts; recorded jump times, sampled states / jump sizes, normals) around the real simulators in their three modes; the path is recomputed by the harness from the recorded variates; direct calls of the two build_finer_grid closures",
             "Held-on-observed: times 0 = t_0 < ... = T, running jump sums and running diffusion sums for 2..13 product dates, step cap incl. after the last jump and on paths without jump, original points kept, inserted points repeat the previous value, fine/coarse aligned; direct, 1-d chain, copula chain, 1-d coupling, copula coupling.",
-            "Finite-variation copulas; small grids.", "3/C15"),
+            "Infinite-variation copulas in dimension 2; small grids.", "3/C15"),
     "C05": ("sequential reference model fed by the event log of a scripted coupling process (unique-id samples) run through the real multilevel engine; record-only wrappers on Statistic.add (fresh row below the allocated size); payoff dimension 1..3 and 0..2 regression control variates with an independent regression as oracle",
             "Held-on-observed: Nl, stored rows, price, ml, vl, level means/variances, cl, cost, kurtosis recomputed from exactly the logged samples over adaptive histories (late levels, multi-pass) and the fixed-level variant, with and without control variates, scalar and vector payoffs.",
             "Single process; control samples that are (nearly) degenerate at a level are skipped and counted; budget-limited runs are inconclusive.", "3/C05"),
@@ -32,7 +32,7 @@ CHECKS = {
             "Single process; non-degenerate controls.", "3/C07"),
     "C17": ("history-replay monitor: every underlying x payoff evaluated on a fresh product and on a long-lived one after generated histories (other paths, knocking paths, representation switches), in both representations; harness-side path scans and algebraic identities as oracle",
             "Held-on-observed: purity, identity = log representation, parity / spread / butterfly / digital identities, knock-in + knock-out = vanilla with the barrier event scanned by the harness, averages within extremes, default times, n-th-to-default monotone, notional linearity.",
-            "LookBack excluded; rate payoffs (Bond, Cap, Ratchet, Swaption) not exercised.", "3/C17"),
+            "LookBack excluded (its process() raises by design); rate payoffs and CDS are in the purity / representation monitor only (the statement gives no identity for them).", "3/C17"),
     "C18": ("runtime monitor of static no-arbitrage relations and cross-method agreement (COS, FFT, Black-Scholes closed form, VG vs CGMY(y=0)) on generated models of a documented box; tolerances calibrated on 3000 models with a 10x margin",
             "Held-on-observed: parity, bounds, monotonicity, convexity, digital range/monotonicity, density positivity and mass, cdf, scalar = vector strikes, price(product), COS = FFT = closed form.",
             "Empirical parameter box (not a proof of truncation error); strikes in the middle 40% of the COS range.", "3/C18"),
@@ -47,16 +47,16 @@ CHECKS = {
             "Copula callable trusted (C11); absolute floor 1e-14 x marginal mass for closed-form rounding.", "3/C12"),
     "C03": ("exact measurement of the coupling kernel as a function of the scripted coupling uniform after real next_level() calls; conservation / locality checker against independent cell masses of both grids; recorded previous-level drift and diffusion; replay of a logged coupled simulation through the measured kernel",
             "Held-on-observed: rate conservation for every coarse state, locality of every increment, coarse drift/diffusion of level l-1, shared Brownian increments, coarse path = image of the fine path; 1-d (all methods, 3 simulation modes, levels 1..3) and 2-d/3-d copulas.",
-            "Cell masses from quadrature / corner sums; chains with intensity >= 1e-9; finite-variation copulas.", "3/C03"),
+            "Cell masses from quadrature / corner sums; chains with intensity >= 1e-9; infinite-variation copulas in dimension 2 only.", "3/C03"),
     "C04": ("reference-oracle monitor on the initialised chain: process_drift + recorded/measured rates vs quadrature mean of the truncated process in the declared representation; diffusion and variance-gap monitors",
             "Held-on-observed: all representations (native, ZERO, CENTER, ONEONE, TILDE) x families x grids x levels x methods; copula margins with a-priori slack.",
-            "Truncated process = drift fixed in the declared representation, nu restricted to the grid bounds; finite-variation copulas only.", "3/C04"),
+            "Truncated process = drift fixed in the declared representation, nu restricted to the grid bounds; central-cell oracle on uniform grids; tolerance of the small-jump moments = the accuracy the code requests from its own quadrature.", "3/C04"),
     "C02": ("exact black-box measurement of the map uniform -> state of every sampler (recursive bisection to one ulp; integer bisection over the 2^32 words for the table method), scripted variate sources for the batch call, replay of the same uniforms under 4 orders / fresh samplers",
             "Held-on-observed: pre-image lengths vs target vector (raw) or independent quadrature cell masses (chains) for all 7 sampler classes incl. n-d; exact never-origin / never-outside / never-zero-probability monitors; batch == single-uniform; history independence.",
             "Assumes no hidden piece between equal neighbours below the probe spacing; a set of uniforms of measure <= 1e-12 next to 1 is exempt.", "3/C02"),
     "C01": ("record-only hooks on the sampling factory + exact black-box law measurement of on-the-fly samplers; oracle: quadrature of the model density on harness-recomputed cells, corner-sum Levy-copula mass on quadrature tail integrals",
             "Held-on-observed: every state rate handed to / realised by every accepted sampling method compared with an independent mass, on all grid constructors, levels 0..5, 1-d families and 2-d/3-d copulas; tiling and intensity monitors.",
-            "Trusts scipy quad and the copula callable (C11); finite-variation margins only for copulas in this check.", "3/C01"),
+            "Trusts scipy quad and the copula callable (C11); copulas with infinite-variation margins in dimension 2 only.", "3/C01"),
     "C13": ("icontract post-conditions on CTMCGrid.__init__ and CTMCGrid.refine attached from the harness (class invariant + OLD-snapshot nesting contract), quadrature oracle for promised probabilities",
             "Held-on-observed: contracts evaluated on every grid built and refined by all 6 constructors, d=1..3, 0..6 refinements.",
             "Domain: >=2 states per half-axis, l<a<-h, two-sided measures for probability-step grids.", "3/C13"),
